@@ -423,6 +423,23 @@ Proof.
   - now apply create_wf.
 Qed.
 
+Lemma slice_run_wf now vs : forall t acc, wf t ->
+  wf (fst (fold_left (fun acc v => let r := create (fst acc) now (Some RAll) (with_uat now v) in
+                                   (res_tbl r, snd acc ++ [res_ret r])) vs (t, acc))).
+Proof.
+  induction vs as [|v vs IH]; intros t acc Hwf; cbn [fold_left fst snd]; [exact Hwf|].
+  apply IH. now apply create_wf.
+Qed.
+
+Lemma slice_run_len now vs : forall t acc,
+  length (snd (fold_left (fun acc v => let r := create (fst acc) now (Some RAll) (with_uat now v) in
+                                       (res_tbl r, snd acc ++ [res_ret r])) vs (t, acc)))
+  = (length acc + length vs)%nat.
+Proof.
+  induction vs as [|v vs IH]; intros t acc; cbn [fold_left fst snd]; [cbn; lia|].
+  rewrite IH, app_length. cbn. lia.
+Qed.
+
 Lemma step_wf keep t now ch f : chain_keeps_key ch -> wf t -> wf (res_tbl (step keep t now ch f)).
 Proof.
   intros Hk Hwf. unfold step. destruct f.
@@ -431,6 +448,7 @@ Proof.
   - unfold first_or_init. now destruct (first_match t _).
   - apply foc_wf; [|exact Hwf]. unfold run_chain.
     apply (chain_assigns (fun a => names_key (assign_map a) = false)); auto.
+  - cbn [res_tbl]. unfold save_slice_run. now apply slice_run_wf.
 Qed.
 
 (* a history = steps (now, chain, finisher) applied to the evolving table *)
@@ -478,3 +496,9 @@ Lemma foc_reading_repo t now ch ic :
   step_repo t now ch (FFoc ic)
   = ref_foc t now (ch_conds ch) (ch_conds ch ++ ic) (ch_attrs ch) (ch_assigns ch).
 Proof. apply foc_reading. now left. Qed.
+
+Lemma save_slice_wf_len t now vs : wf t ->
+  wf (fst (save_slice_run t now vs)) /\ length (snd (save_slice_run t now vs)) = length vs.
+Proof.
+  intros Hwf. unfold save_slice_run. split; [now apply slice_run_wf|]. now rewrite slice_run_len.
+Qed.
